@@ -176,6 +176,19 @@ Definition valid_field_name (s : string) : bool :=
 Fixpoint no_dups (l : list string) : bool :=
   match l with [] => true | x :: r => negb (existsb (String.eqb x) r) && no_dups r end.
 
+(* list(dict(fields).items()): a key given twice keeps its first position and its last value (F44) *)
+Fixpoint upd_field (n : string) (t : ty) (l : list (string * ty)) : list (string * ty) :=
+  match l with
+  | [] => [(n, t)]
+  | (k, v) :: r => if String.eqb k n then (k, t) :: r else (k, v) :: upd_field n t r
+  end.
+Fixpoint dedupe_from (acc : list (string * ty)) (ns : list string) (ts : list ty) : list (string * ty) :=
+  match ns, ts with
+  | n :: ns', t :: ts' => dedupe_from (upd_field n t acc) ns' ts'
+  | _, _ => acc
+  end.
+Definition dedupe_last (ns : list string) (ts : list ty) : list (string * ty) := dedupe_from [] ns ts.
+
 (* visit_Dict: the record type of a dict literal *)
 Fixpoint key_lits (ks : list expr) : option (list lit) :=
   match ks with
@@ -195,7 +208,10 @@ Definition dict_type (ks : list expr) (tvs : list ty) : tres ty :=
   | None => Refuse RNotLiteral
   | Some ls =>
       match lit_names ls with
-      | Some ns => if forallb valid_field_name ns && no_dups ns then Ok (TRecord ns tvs) else Ok TAny
+      | Some ns =>
+          if forallb valid_field_name ns
+          then let d := dedupe_last ns tvs in Ok (TRecord (map fst d) (map snd d))
+          else Ok TAny
       | None => Ok TAny
       end
   end.
@@ -241,7 +257,7 @@ Section Visitors.
         match key_index ks a 0 with
         | None => Crash CkAttr
         | Some [] => if is_zip a then Ok TAny else Refuse RDictKey
-        | Some (i :: _) => Ok (nth i aux TAny)
+        | Some (i :: l) => Ok (nth (last l i) aux TAny)          (* a key given twice: the last one counts (F44) *)
         end
     | _ =>
         match record_fields ct tv with
@@ -278,6 +294,9 @@ Section Visitors.
         | None => Ok (unwrap_iterable ct tv)
         end
     end.
+
+  (* `not x` is a boolean whatever x is; -x, +x, ~x keep the type of x (F43) *)
+  Definition unary_type (o : uop) (t : ty) : ty := match o with UNot => TBool | _ => t end.
 
   Definition binop_type (o : bop) (tl tr : ty) : ty :=
     if is_any tl || is_any tr then TAny
@@ -435,6 +454,21 @@ Section Visitors.
            then map (fun c => TCls c [unwrap_iterable ct tv]) (collection_names ct)
            else []).
 
+  (* the class whose callbacks a method call fires: the first candidate that has the method - the class the call is
+     written against - also when a collection class further down the list provided the typing (F46) *)
+  Fixpoint callback_target (cands : list ty) (a : string) : option (ty * method) :=
+    match cands with
+    | [] => None
+    | bo :: r =>
+        match get_method_and_class ct bo a with
+        | Some (_, MMethod m) => Some (bo, m)
+        | Some (_, MProp _) => None
+        | None => callback_target r a
+        end
+    end.
+  Definition callbacks_of (tv : ty) (a : string) (dflt : ty * method) : ty * method :=
+    match callback_target (candidates tv) a with Some x => x | None => dflt end.
+
   (* process_method_call, after generic_visit: v' the visited receiver, tv its type *)
   Definition process_method_call (v' : expr) (tv : ty) (a : string) (args : list aarg)
              (kwn : list (option string)) (kwv : list aarg) : tres (expr * ty * list event) :=
@@ -446,7 +480,8 @@ Section Visitors.
       | Some r =>
           match mr_obj r with
           | Some (bo, m) =>
-              let '(site, ev) := method_callbacks bo m (mr_node r) in
+              let '(cbo, cm) := callbacks_of tv a (bo, m) in
+              let '(site, ev) := method_callbacks cbo cm (mr_node r) in
               Ok (site, mr_ty r, mr_ev r ++ ev)
           | None => Ok (mr_node r, mr_ty r, mr_ev r)
           end
@@ -481,6 +516,18 @@ Section Visitors.
     | Some (_, MProp None) => Refuse RNotParameterized
     | Some (_, MMethod _) => Refuse RNotParameterized          (* a function object is not in the property table *)
     | None => Crash CkAttr                                     (* getattr(obj_type, attr_name): AttributeError *)
+    end.
+
+  (* an immediately called lambda whose call binds each parameter to one positional argument *)
+  Definition is_starred (e : expr) : bool :=
+    match e with Other cls _ _ => String.prefix "Starred;" cls | _ => false end.
+  Definition called_ok (ps : list string) (args : list expr) (kwn : list (option string)) (kwv : list expr) : bool :=
+    Nat.eqb (length ps) (length args) && negb (existsb is_starred args)
+    && match kwn with [] => true | _ => false end && match kwv with [] => true | _ => false end.
+  Fixpoint bind_params (ps : list string) (ts : list ty) (G : tenv) : tenv :=
+    match ps, ts with
+    | p :: ps', t :: ts' => (p, t) :: bind_params ps' ts' G
+    | _, _ => G
     end.
 
   (* ---------- the transformer ---------- *)
@@ -536,7 +583,7 @@ Section Visitors.
         bind (subscript_type v' tv aux s') (fun t => Ok (Subscript v' s', t, [], ev1 ++ ev2))))
     | UnaryOp o x =>
         bind (follow_x G x) (fun '(x', t, _, ev) =>
-          if unary_uses_lookup || negb (no_entry_shape x' t) then Ok (UnaryOp o x', t, [], ev)
+          if unary_uses_lookup || negb (no_entry_shape x' t) then Ok (UnaryOp o x', unary_type o t, [], ev)
           else Crash CkKey)
     | BinOp o l r =>
         bind (follow_x G l) (fun '(l', tl, _, ev1) =>
@@ -591,6 +638,16 @@ Section Visitors.
               then Ok (Call (Subscript (Attr v' a) s') args' kwn kwv', TAny, [], ev0 ++ ev0' ++ ev1 ++ ev2)
               else bind (process_parameterized v' tv a s' args' kwn kwv') (fun '(node, t, ev3) =>
                      Ok (node, t, [], ev0 ++ ev0' ++ ev1 ++ ev2 ++ ev3))))))))
+        | Lambda ps b =>
+            (* (lambda x, ...: body)(a, ...) (F45): the lambda is not visited as a value, the arguments are; when
+               the call binds every parameter positionally the body is followed with the parameters typed by the
+               arguments, and its type is the type of the call; otherwise the call is left alone *)
+            bind (fl args) (fun '(args', ts, ev1) =>
+            bind (fl kwv) (fun '(kwv', _, ev2) =>
+              if called_ok ps args kwn kwv
+              then bind (follow_x (bind_params ps ts G) b) (fun '(b', tb, _, ev3) =>
+                     Ok (Call (Lambda ps b') args' kwn kwv', tb, [], ev1 ++ ev2 ++ ev3))
+              else Ok (Call (Lambda ps b) args' kwn kwv', TAny, [], ev1 ++ ev2)))
         | _ =>
             bind (follow_x G f) (fun '(f', _, _, ev0) =>
             bind (fl args) (fun '(args', _, ev1) =>
